@@ -3,7 +3,7 @@
 From Ructe Require Import Nom Utf8 Expression TemplateExpr Template ParseResult Emit.
 Local Open Scope string_scope.
 
-Inductive outcome := Accepted (rust : bytes) | Rejected (diag : bytes) | Panicked | OutOfFuel.
+Inductive coutcome := Accepted (rust : bytes) | Rejected (diag : bytes) | Panicked | NoFuel.
 
 Definition fuel_for (src : bytes) : nat := 4 * length src + 16.
 
@@ -12,11 +12,11 @@ Definition parse_template (src : bytes) : res template_t :=
   let E := expr_gram f in
   template (ty_gram f) (texpr_gram E f f TE) src.
 
-Definition compile (uni_esc : N -> bool) (name src : bytes) : outcome :=
+Definition compile (uni_esc : N -> bool) (name src : bytes) : coutcome :=
   match parse_template src with
   | Ok t _ => Accepted (write_rust uni_esc t name)
   | Err e => match show_errors src e (b "cargo:warning=") with
              | Some d => Rejected d | None => Panicked end
-  | Abort AFuel => OutOfFuel
+  | Abort AFuel => NoFuel
   | Abort APanic => Panicked
   end.
